@@ -418,6 +418,30 @@ def emit_fn_user(name, prog, nparams, extra):
     args = ''.join('a%d: isize, ' % i for i in range(nparams))
     lets = ''.join('    let p%d: TC = LTerm::from(a%d);\n' % (i, i) for i in range(nparams))
     body = ',\n        '.join(goal_src(g) for g in prog)
+    if extra.get('reify_balance'):
+        # the answer state after reification: [reified q, #with_constraint - #take_constraint - |constraint store|]
+        return '''
+pub fn %s(%slimit: usize) -> Vec<TC> {
+%s    let q: TC = LTerm::var("q");
+    let goal: Goal<CntUser, CE> = proto_vulcan!([
+        %s,
+        proto_vulcan::state::reify(q.clone())
+    ]);
+    let mut solver: Solver<CntUser, CE> = Solver::new((), false);
+    let mut stream = solver.start(&goal, State::new(CntUser::default()));
+    let mut out = vec![];
+    while out.len() < limit {
+        match solver.next(&mut stream) {
+            Some(st) => {
+                let bal = st.user_state.with_calls - st.user_state.take_calls - (st.cstore_ref().iter().count() as isize);
+                out.push(LTerm::from_vec(vec![st.smap_ref().walk_star(&q), LTerm::from(bal)]))
+            }
+            None => break,
+        }
+    }
+    out
+}
+''' % (name, args, lets, body)
     return '''
 pub fn %s(%slimit: usize) -> Vec<TC> {
 %s    let q: TC = LTerm::var("q");
